@@ -697,27 +697,32 @@ impl Cx {
     ok
   }
 
-  /// Single-bit mutation stage for a verified token (real verifier, valid signature).
-  fn bitflips(&mut self, t: &Token, idx: usize, rng: &mut Rng, all_bits: bool) {
+  /// Where P, the attached payload and S of entry `idx` sit inside the token text: (part, start, len). A part is listed only
+  /// when its position is unambiguous (in a general serialization two entries may carry the same protected segment or
+  /// signature; mutating the first occurrence would then hit another entry).
+  fn regions(&self, t: &Token, idx: usize) -> Vec<(&'static str, usize, usize)> {
     let e = &t.entries[idx];
     let text = t.text.as_bytes();
-    let mut regions: Vec<(&'static str, usize, usize)> = Vec::new(); // (part, start, len) inside the token text
+    let mut regions: Vec<(&'static str, usize, usize)> = Vec::new();
+    let unique = |needle: &str| -> bool { t.ser != Ser::General || t.entries.len() == 1 || t.text.matches(needle).count() == 1 };
     let find = |needle: &str| -> Option<usize> { if needle.is_empty() { None } else { t.text.find(needle) } };
     if let Some(p) = &e.prot_seg {
       if let Some(i) = find(p) {
-        regions.push(("protected", i, p.len()));
+        if unique(p) {
+          regions.push(("protected", i, p.len()));
+        }
       }
     }
     let s_seg = url_encode(&e.sig);
     if let Some(i) = t.text.rfind(&s_seg) {
-      if !s_seg.is_empty() {
+      if !s_seg.is_empty() && unique(&s_seg) {
         regions.push(("signature", i, s_seg.len()));
       }
     }
     let attached = matches!(t.attach, Attach::Attached);
     if attached {
       if let Ok(ys) = std::str::from_utf8(&t.y) {
-        // in JSON serializations the payload is JSON-escaped; only flip when it appears verbatim
+        // in JSON serializations the payload is JSON-escaped; only mutate when it appears verbatim
         let pos = match t.ser {
           Ser::Compact | Ser::Document => e.prot_seg.as_ref().map(|p| p.len() + 1),
           _ => find(&format!("\"payload\":\"{}\"", ys)).map(|i| i + 11),
@@ -729,6 +734,13 @@ impl Cx {
         }
       }
     }
+    regions
+  }
+
+  /// Single-bit mutation stage for a verified token (real verifier, valid signature).
+  fn bitflips(&mut self, t: &Token, idx: usize, rng: &mut Rng, all_bits: bool) {
+    let text = t.text.as_bytes();
+    let regions = self.regions(t, idx);
     let mut flips: Vec<(&'static str, usize, u8)> = Vec::new();
     for (part, start, len) in &regions {
       for off in 0..*len {
@@ -811,6 +823,120 @@ impl Cx {
   }
 }
 
+impl Cx {
+  /// Decoration stage for a verified token (real verifier, valid signature): byte strings a tolerant decoder might strip
+  /// (ASCII whitespace, control bytes, Unicode spaces / BOM, padding, percent-encoded space) are INSERTED at the ends of
+  /// the token, at both sides of every segment boundary and inside segments, in the base64url members of the JSON
+  /// serializations (raw and as JSON escapes) and around the detached payload. The result is another byte string than
+  /// the one that was signed: its protected segment / payload as received is not the signed one, or its signature member is
+  /// not the base64url text that was sent, so under the real verifier it must not be reported verified.
+  fn decorations(&mut self, t: &Token, idx: usize, rng: &mut Rng) {
+    const RAW: &[&[u8]] = &[
+      b" ", b"\t", b"\n", b"\r", b"\x0C", b"\x0B", b"\0", b"\x1F", b"\x7F", b"\r\n", b"  ", b" \t\n", b"\xC2\xA0", b"\xEF\xBB\xBF", b"\xC2\x85",
+      b"\xE2\x80\x8B", b"%20",
+    ];
+    // appended / inserted padding changes the segment the signature has to cover; for the signature member itself the
+    // statement does not settle whether a padded spelling of the same bytes is acceptable, so it is left out there
+    const PAD: &[&[u8]] = &[b"=", b"=="];
+    const ESCAPED: &[&[u8]] = &[b"\\n", b"\\t", b"\\r", b"\\f", b"\\u0020", b"\\u00a0", b"\\ufeff", b"\\u0000", b"\\u000A"];
+    const PAIRS: &[(&[u8], &[u8])] = &[(b" ", b" "), (b"\n", b"\n"), (b"\t", b"\r\n"), (b"\r", b"\x0C"), (b"\x0C", b"\r"), (b"  ", b"\t")];
+    let text = t.text.as_bytes();
+    let json_ser = matches!(t.ser, Ser::Flattened | Ser::General);
+    let insert = |base: &[u8], pos: usize, what: &[u8]| -> Vec<u8> { [&base[..pos], what, &base[pos..]].concat() };
+    let mut regions = self.regions(t, idx);
+    if !json_ser && !matches!(t.attach, Attach::Attached) {
+      // the empty payload segment of a compact token with detached payload
+      if let Some(p) = &t.entries[idx].prot_seg {
+        regions.push(("payload-gap", p.len() + 1, 0));
+      }
+    }
+    for (part, start, len) in &regions {
+      let (start, len) = (*start, *len);
+      let mut places: Vec<(&'static str, usize)> = vec![("start", start)];
+      if len > 0 {
+        places.push(("end", start + len));
+      }
+      if len >= 2 {
+        places.push(("inside", start + 1 + rng.usize(len - 1)));
+      }
+      for (place, pos) in &places {
+        for d in RAW {
+          let m = insert(text, *pos, d);
+          self.decoration_case(t, idx, &m, t.detached.as_deref(), part, place, d);
+        }
+        if *part != "signature" {
+          for d in PAD {
+            let m = insert(text, *pos, d);
+            self.decoration_case(t, idx, &m, t.detached.as_deref(), part, place, d);
+          }
+        }
+        if json_ser {
+          for d in ESCAPED {
+            let m = insert(text, *pos, d);
+            self.decoration_case(t, idx, &m, t.detached.as_deref(), part, place, d);
+          }
+        }
+      }
+      if len > 0 {
+        for (a, b) in PAIRS {
+          let m = insert(&insert(text, start + len, b), start, a);
+          self.decoration_case(t, idx, &m, t.detached.as_deref(), part, "both-ends", &[*a, *b].concat());
+        }
+      }
+    }
+    if !json_ser {
+      // the whole compact token wrapped (around a JSON document such whitespace is ordinary JSON and says nothing)
+      for (a, b) in PAIRS {
+        let m = [*a, text, *b].concat();
+        self.decoration_case(t, idx, &m, t.detached.as_deref(), "ends", "both-ends", &[*a, *b].concat());
+      }
+    }
+    if let Some(d) = &t.detached {
+      let mut places: Vec<(&'static str, usize)> = vec![("start", 0), ("end", d.len())];
+      if d.len() >= 2 {
+        places.push(("inside", 1 + rng.usize(d.len() - 1)));
+      }
+      for (place, pos) in &places {
+        for w in RAW.iter().chain(PAD.iter()) {
+          let m = insert(d, *pos, w);
+          self.decoration_case(t, idx, text, Some(&m), "detached-payload", place, w);
+        }
+      }
+      for (a, b) in PAIRS {
+        let m = [*a, &d[..], *b].concat();
+        self.decoration_case(t, idx, text, Some(&m), "detached-payload", "both-ends", &[*a, *b].concat());
+      }
+    }
+  }
+
+  fn decoration_case(&mut self, t: &Token, idx: usize, text: &[u8], detached: Option<&[u8]>, part: &'static str, place: &'static str, what: &[u8]) {
+    self.rep.inc("decorations");
+    self.rep.inc(&format!("decorations:{}", part));
+    match self.execute(t, text, detached, idx, Delegate::Real) {
+      Err(p) => self.rep.violation(&format!("panic@{}", p.file_only()), &format!("decorated token panicked: {} at {}", p.msg, p.loc()), json!({"token": String::from_utf8_lossy(text)})),
+      Ok((out, _)) => {
+        if out.verified {
+          let mut c = self.case_json(t, idx);
+          c["mutated_token"] = json!(String::from_utf8_lossy(text));
+          c["mutated_token_b64url"] = json!(url_encode(text));
+          c["mutated_detached_b64url"] = json!(detached.map(url_encode));
+          c["inserted"] = json!({"part": part, "place": place, "bytes_hex": what.iter().map(|b| format!("{:02x}", b)).collect::<String>()});
+          self.rep.violation(
+            &format!("decoration-still-verifies:{}:{:?}", part, t.ser),
+            &format!(
+              "inserting the bytes {:?} at the {} of the {} of a verified token gives a byte string that is still reported verified, although the signature does not cover it",
+              String::from_utf8_lossy(what),
+              place,
+              part
+            ),
+            c,
+          );
+        }
+      }
+    }
+  }
+}
+
 fn main() {
   let args = Args::parse();
   let scale = args.extra_u64("scale", 1000);
@@ -821,12 +947,17 @@ fn main() {
      b64 absent/true/false x header alg {EdDSA, ES256, ES256K, unsupported, absent, mismatching} x key alg pin {none, equal, different} x \
      caller key {signer's, other} x signature {valid, over re-serialised header, over decoded payload, over other b64 form, other key, garbage, \
      truncated, empty} x verifier delegate {real, always-Ok, always-Err}; non-trivial = tokens the library reported verified (each checked \
-     against the recording verifier's log), distinct by the class tuple of those dimensions; plus single-bit flips of P, Y, S of verified tokens",
+     against the recording verifier's log), distinct by the class tuple of those dimensions; plus single-bit flips of P, Y, S of verified tokens; plus insertions of \
+     strippable bytes (ASCII whitespace, controls, Unicode spaces/BOM, padding, %20; JSON escapes of them in the JSON serializations) at the \
+     ends, at segment boundaries and inside the segments of verified tokens and around their detached payload",
   );
   let mut rng = args.rng(1);
   let n_tokens = (if args.thorough { 600_000u64 } else { 4_000 } * scale / 1000 / args.nshards).max(40);
   let n_flip_tokens = (if args.thorough { 4_800u64 } else { 96 } * scale / 1000 / args.nshards).max(3);
+  let n_decor_tokens = (if args.thorough { 19_200u64 } else { 384 } * scale / 1000 / args.nshards).max(4);
   let mut flipped = 0u64;
+  let mut decorated = 0u64;
+  let mut drng = args.rng(2);
   for i in 0..n_tokens {
     // every 3rd token is forced well-formed and correctly signed so that acceptance is not vacuous
     let t = build_token(&mut rng, i % 3 == 0);
@@ -840,6 +971,14 @@ fn main() {
           cx.rep.inc("bitflip_tokens");
           let all = args.thorough || t.text.len() <= 400;
           cx.bitflips(&t, idx, &mut rng, all);
+        }
+      }
+      if ok && t.delegate == Delegate::Real && e.sig_mode == SigMode::Valid && decorated < n_decor_tokens {
+        if (decorated % 4) as usize == match t.ser { Ser::Compact => 0, Ser::Flattened => 1, Ser::General => 2, Ser::Document => 3 } {
+          decorated += 1;
+          cx.rep.inc("decorated_tokens");
+          cx.rep.inc(&format!("decorated_tokens:{:?}", t.ser));
+          cx.decorations(&t, idx, &mut drng);
         }
       }
     }
